@@ -328,6 +328,9 @@ func (m *Message) GetString(ctx context.Context) (string, error) {
 		if err != nil {
 			return "", err
 		}
+		if length < 0 {
+			return "", fmt.Errorf("invalid string length prefix: %d", length)
+		}
 
 		if err := m.ensureData(ctx, int(length)); err != nil {
 			return "", err
@@ -401,6 +404,9 @@ func (m *Message) GetStringWithMaxSize(ctx context.Context, maxSize int) (string
 		length, err := m.GetInt32(ctx)
 		if err != nil {
 			return "", err
+		}
+		if length < 0 {
+			return "", fmt.Errorf("invalid string length prefix: %d", length)
 		}
 
 		// Check if length exceeds maxSize - if so, only read maxSize bytes
